@@ -51,3 +51,40 @@ def c02(ctx, t0):
     return finish(ctx, 'exploration', res, COMMON_ASSUME + [
         'sandwich rule: strict-valid => must accept; accept => permissive-valid; in between either answer is correct',
         '"never a hang" is judged by a 30 s then 90 s limit on a deterministic single call whose legitimate cost is < 1 s'], floors, t0)
+
+
+@plan('C13')
+def c13(ctx, t0):
+    hx = ctx.build_hx()
+    res = []
+    if want(ctx, 'codec'):
+        res.append(ctx.run_child('codec', [hx, 'c13'], T(ctx, 300, 2400)))
+    floors = {'roundtrips': (counters(res, 'roundtrips'), 400), 'over_limit_encodes': (counters(res, 'over_limit_encodes'), 100),
+              'fragmented_decodes': (counters(res, 'fragmented_decodes'), 2000), 'valid_requests': (counters(res, 'valid_requests'), 20),
+              'corpus_files': (counters(res, 'corpus_files'), 5)}
+    return finish(ctx, 'exploration', res, COMMON_ASSUME + ['reference codec go/ref/wire.go is the oracle', 'zero-length reads are limited to 3 consecutive (bufio.Scanner gives up after 100, which is stdlib behaviour)'], floors, t0)
+
+
+@plan('C05')
+def c05(ctx, t0):
+    hx = ctx.build_hx(race=True)
+    res = []
+    if want(ctx, 'server'):
+        res.append(ctx.run_child('server', [hx, 'c05'], T(ctx, 400, 3000), race=True))
+    floors = {'connections': (counters(res, 'connections'), 2000), 'valid_streams': (counters(res, 'valid_streams'), 300),
+              'invalid_streams': (counters(res, 'invalid_streams'), 300), 'positive_replies': (counters(res, 'positive_replies'), 50)}
+    return finish(ctx, 'exploration', res, COMMON_ASSUME + [
+        'an abandoned request is modelled as the client ending the stream (half-close or close); a client that keeps an unfinished request open is not a finished byte stream',
+        'callbacks are attributed to connections by a unique login per connection',
+        'PAM-side decodability is modelled here as "reply text has at least 2 bytes"; the compiled module reads these replies in the C20 check'], floors, t0)
+
+
+@plan('C14')
+def c14(ctx, t0):
+    hx = ctx.build_hx()
+    res = []
+    if want(ctx, 'records'):
+        res.append(ctx.run_child('records', [hx, 'c14'], T(ctx, 300, 2400)))
+    floors = {'writes:hmac_sha256_scrypt': (counters(res, 'writes:hmac_sha256_scrypt'), 50), 'writes:argon2id': (counters(res, 'writes:argon2id'), 50),
+              'writes:rewrite-same-password': (counters(res, 'writes:rewrite-same-password'), 10), 'files_scanned_for_secrets': (counters(res, 'files_scanned_for_secrets'), 40)}
+    return finish(ctx, 'exploration', res, COMMON_ASSUME + ['digest recomputation uses x/crypto scrypt/argon2 + crypto/hmac directly from the generated YAML values (r,p omitted or <= 0 => 8,1)'], floors, t0)
